@@ -71,12 +71,25 @@ pub trait Interface: ErrorHandler {
         };
 
         if let Some(command) = command {
-            self.execute_command(command, &call.args, response).await?;
+            let start = response.position();
+            let mut result = self.execute_command(command, &call.args, response).await;
 
-            if call.query {
-                response.write_char('\n').await?;
-                response.flush().await?;
+            if result.is_ok() && call.query {
+                result = match response.write_char('\n').await {
+                    Ok(()) => response.flush().await,
+                    Err(error) => Err(error),
+                };
             }
+
+            if result.is_err() {
+                // Do not leave a part of the response behind: it would be sent without its
+                // terminator and be taken for the beginning of the next response.
+                if let Some(start) = start {
+                    response.rollback(start);
+                }
+            }
+
+            result?;
         }
         else {
             return Err(Error::UndefinedHeader);
